@@ -4,6 +4,7 @@ import json, random
 from ..common import Result, Violation, run_driver, canon_hash
 from ..langgen import LangGen, gen_model, lang_payload, inst_payload, jtxt
 from ..genrun import impl_generate, Ref, model_nodes_canon
+from .. import genexec
 
 ASSUMPTIONS = [
     'languages well-formed; models valid, asset ids and names pairwise distinct (C05 invariant); step names are identifiers (no colon)',
@@ -31,11 +32,17 @@ def expected_nodes(spec, inst):
                         'defense': d, 'exist': e})
     return out
 
-def check_case(spec, inst, mo, churn_seed=None):
+def check_case(spec, inst, mo, churn_seed=None, keep=None):
+    """`keep`: a dict with lookup keys `ids` / `names`; receives the observation of the real graph (`im`) and the answers of
+    its lookups (`_lookups`) for the third column"""
     im = impl_generate(spec, inst, keep=True, churn=None if churn_seed is None else random.Random(churn_seed), member_p=0.8)
     if 'error' in im:
         return Violation(what='generation fails: ' + im['error'], fingerprint='C02:gen-error', replay={'spec': spec, 'inst': inst})
     lg, fac, m, g = im.pop('_objs')
+    if keep is not None:
+        nid = lambda x: None if x is None else x.id
+        keep['im'] = im
+        keep['_lookups'] = {'ids': [nid(g.get_node_by_id(k)) for k in keep['ids']], 'names': [nid(g.get_node_by_full_name(k)) for k in keep['names']]}
     want = expected_nodes(spec, inst)
     probs = []
     if im['nodes'] != want:
@@ -126,17 +133,21 @@ def run(seed, tier, lean) -> Result:
         cases.append((spec, inst))
     # the real model decides the final names (renaming); read them back before asking the Lean model
     from ..langgen import build_lang, build_model
+    names0 = {}          # third column: the names the asset objects were constructed with (the generated `add_asset` renames itself)
     for spec, inst in cases:
         if any(a['name'] is None or a['name'].startswith(('A', 'T')) for a in inst['assets']):
             try:
+                orig = [a['name'] for a in inst['assets']]
                 _, fac = build_lang(spec); _, byid = build_model(fac, inst)
                 for a in inst['assets']: a['name'] = str(byid[a['id']].name)
+                names0[id(inst)] = orig
             except Exception:
                 for a in inst['assets']:
                     if a['name'] is None: a['name'] = f"{a['type']}:{a['id']}"
     model = None
     if lean['build_ok']:
         model = run_driver([{'op': 'gen', 'case': i, 'lang': lang_payload(s), 'inst': inst_payload(m)} for i, (s, m) in enumerate(cases)])
+    third = []          # the cases for the third column (the GENERATED code), run after the real code
     for i, (spec, inst) in enumerate(cases):
         res.evaluations += 1
         mo = model[i].get('model') if model is not None else None
@@ -145,8 +156,14 @@ def run(seed, tier, lean) -> Result:
         # a third of the cases: model built larger, one generation, extras removed through the API, then the generation
         # that is checked (what an earlier generation cached must not survive the removals)
         from ..common import guarded
-        done, v = guarded(res, check_case, spec, inst, mo, churn_seed=(seed * 1000003 + i) if i % 3 != 1 else None)
+        # lookup keys for the third column: the full names a graph of this model can have, absent ones, ids around the range
+        names = [f"{a['name']}:{st['name']}" for a in inst['assets'] for t in spec['assets'] for st in t['attackSteps']][:60]
+        keep = {'ids': list(range(-1, 14)) + [10 ** 6], 'names': names + ['nosuch:step'] + [x + 'x' for x in names[:2]]}
+        done, v = guarded(res, check_case, spec, inst, mo, churn_seed=(seed * 1000003 + i) if i % 3 != 1 else None, keep=keep)
         if not done: continue
+        if v is None and model is not None and 'im' in keep:
+            if id(inst) in names0: keep['names0'] = names0[id(inst)]; res.bump('generated_code_models_named_by_add_asset')
+            third.append((spec, inst, keep.pop('im'), dict(keep, _replay={'churn_seed': (seed * 1000003 + i) if i % 3 != 1 else None})))
         if v is not None and i % 3 != 1: v.replay['churn_seed'] = seed * 1000003 + i
         types = {a['type'] for a in inst['assets']}
         parents = {a['name']: a['superAsset'] for a in spec['assets']}
@@ -162,7 +179,25 @@ def run(seed, tier, lean) -> Result:
         if len(res.samples) < 2 and mo and 'nodes' in mo and len(mo['nodes']) > 4:
             res.samples.append({'inst': inst, 'nodes': mo['nodes'][:6]})
     if not res.samples: res.samples.append({'inst': cases[0][1]})
+    # third column: generated `lg__generate_graph`, `model_add_*`, `AttackGraph(lang_graph, model)`, `get_node_by_*` on the same
+    # inputs - EXACT: node list (order, ids, every attribute), children / parents lists (order and multiplicity), lookups
+    res.violations.extend(genexec.generate_column('C02', res, third, edges='exact', lookups=True))
     return res
+
+def genexec_measure(seed: int, n: int) -> dict:
+    """tools/genexec_seeded.py: the cases of the quick check on (mutated) implementation / hand model / regenerated code"""
+    rnd = random.Random(seed); cases = []
+    for i in range(n):
+        r = random.Random(rnd.getrandbits(48))
+        spec = LangGen(r, knobs={'exist_w': 3}).gen()
+        inst = gen_model(r, spec, colon_names=(i % 3 == 0))
+        if i % 3 == 1:
+            pool = ['A', 'A', 'A:2', None, None]
+            for a in inst['assets']:
+                other = r.choice(inst['assets'])
+                a['name'] = r.choice(pool + [f"{other['type']}:{other['id']}", f"A:{other['id']}"])
+        cases.append((spec, inst, (seed * 1000003 + i) if i % 3 != 1 else None, 0.8))
+    return genexec.generate_measure(cases, edges='exact')
 
 def replay(path):
     r = json.load(open(path))
